@@ -582,6 +582,6 @@ def rule_keyerror(repo: Repo) -> RuleResult:
 
 def rules(repo: Repo, tier: str) -> List[RuleResult]:
     return [rule_tables(repo), c12.rule_compare(repo), rule_translate(repo), rule_literal(repo), rule_foldid(repo), rule_foldarms(repo),
-            rule_equality(repo), c06.rule_range(repo, "C02.range", "GroundedPrecondition._validate_universal_precondition", ("_ground_universal_condition",)),
+            rule_equality(repo), c06.rule_range(repo, "C02.range", "GroundedPrecondition.is_applicable"),
             c06.rule_conform(repo, "C02.conform", only_funcs=("GroundedPrecondition._validate_universal_precondition",), floor=0),
             rule_passthrough(repo), rule_groundall(repo), rule_keyerror(repo)]
